@@ -141,7 +141,7 @@ def check(run):
                 run.extra.setdefault("notes", []).append(f"{m} row {r}: also satisfies all conditions of order {p + 1}")
         # derived constant-coefficient expansion == Taylor coefficients up to the advertised order
         self2 = SimpleNamespace(tableau=[np.array(a, dtype=object), np.array(b, dtype=object) if len(b) > 1 else np.array(b, dtype=object),
-                                         np.array(c, dtype=object)], stage=s)
+                                         np.array(c, dtype=object)], stage=s, order=list(order_t), method=m)
         try:
             co = ti_coeff(self2)
             co = np.asarray(co, dtype=object).reshape(len(b), s + 1)
@@ -188,7 +188,8 @@ def check(run):
             for r in range(nb):
                 for i in range(s):
                     bn[r, i] = Bm[r][i]
-            self3 = SimpleNamespace(tableau=[an, bn, None], stage=s)
+            # order deliberately smaller than the number of stages (as for the 6-stage 5th-order pairs): the expansion must depend on the tableau and the stage count only
+            self3 = SimpleNamespace(tableau=[an, bn, None], stage=s, order=[max(1, s - 1)] * nb, method="generic")
             try:
                 co = ti_sym(self3)
             except Exception as e:
